@@ -169,6 +169,12 @@ func reprint(fset *token.FileSet, f *ast.File, path string) (*ast.File, error) {
 	if err := (&printer.Config{Mode: printer.UseSpaces | printer.TabIndent, Tabwidth: 8}).Fprint(&buf, token.NewFileSet(), f); err != nil {
 		return nil, err
 	}
+	if dir := os.Getenv("EXTRACT_DUMP_NORMALIZED"); dir != "" {
+		// for inspection: the text the rules actually read
+		name := strings.ReplaceAll(strings.TrimPrefix(path, string(filepath.Separator)), string(filepath.Separator), "__")
+		os.MkdirAll(dir, 0o755)
+		os.WriteFile(filepath.Join(dir, name), buf.Bytes(), 0o644)
+	}
 	return parser.ParseFile(fset, path, buf.Bytes(), parser.ParseComments)
 }
 
@@ -311,6 +317,7 @@ func inlineOne(files map[string]*ast.File, keys []string, changed map[string]boo
 	funcDecls, methDecls := map[string]int{}, map[string]int{}
 	other := map[string]bool{} // interface methods, struct fields, type names: a selector .m may mean those
 	types := map[string]bool{}
+	refTypes := map[string]bool{} // types of the package whose values share what they refer to when copied
 	for _, k := range keys {
 		for _, d := range files[k].Decls {
 			switch x := d.(type) {
@@ -329,6 +336,9 @@ func inlineOne(files map[string]*ast.File, keys []string, changed map[string]boo
 			switch x := n.(type) {
 			case *ast.TypeSpec:
 				types[x.Name.Name] = true
+				if !x.Assign.IsValid() && refLikeLiteral(x.Type) {
+					refTypes[x.Name.Name] = true
+				}
 			case *ast.InterfaceType:
 				for _, m := range x.Methods.List {
 					for _, id := range m.Names {
@@ -369,7 +379,7 @@ func inlineOne(files map[string]*ast.File, keys []string, changed map[string]boo
 		if site == nil {
 			continue
 		}
-		if note := inlineAt(files, d, site, types); note != "" {
+		if note := inlineAt(files, d, site, types, refTypes); note != "" {
 			// remove the declaration
 			f := files[d.file]
 			for i, dd := range f.Decls {
@@ -693,6 +703,73 @@ func declaredType(outer *ast.FuncDecl, name string) string {
 	return ""
 }
 
+// refLikeLiteral: a type literal whose values share their referent when copied (so that using the
+// caller's variable instead of the parameter's copy makes no difference).
+func refLikeLiteral(t ast.Expr) bool {
+	switch x := t.(type) {
+	case *ast.StarExpr, *ast.MapType, *ast.ChanType, *ast.FuncType, *ast.InterfaceType:
+		return true
+	case *ast.ArrayType:
+		return x.Len == nil
+	case *ast.ParenExpr:
+		return refLikeLiteral(x.X)
+	}
+	return false
+}
+
+// usesThrough: does the body write a component of `name` (name.f = …, name[i] = …, name.f++), take the address
+// of name or a component, or (withCalls) call a method on it?  For a parameter that is a COPY of the
+// argument such uses act on the copy; after renaming they would act on the caller's variable.
+func usesThrough(body ast.Node, name string, withCalls bool) bool {
+	rooted := func(e ast.Expr) bool { // e = name.<something> / name[<i>] …, strictly longer than name
+		n := 0
+		for {
+			switch x := e.(type) {
+			case *ast.SelectorExpr:
+				e, n = x.X, n+1
+				continue
+			case *ast.IndexExpr:
+				e, n = x.X, n+1
+				continue
+			case *ast.ParenExpr:
+				e = x.X
+				continue
+			case *ast.StarExpr:
+				e = x.X
+				continue
+			case *ast.Ident:
+				return x.Name == name && n > 0
+			}
+			return false
+		}
+	}
+	found := false
+	ast.Inspect(body, func(m ast.Node) bool {
+		switch x := m.(type) {
+		case *ast.AssignStmt:
+			for _, l := range x.Lhs {
+				if rooted(l) {
+					found = true
+				}
+			}
+		case *ast.IncDecStmt:
+			if rooted(x.X) {
+				found = true
+			}
+		case *ast.UnaryExpr:
+			if x.Op == token.AND && rooted(x.X) {
+				found = true
+			}
+		case *ast.CallExpr:
+			if withCalls && rooted(x.Fun) {
+				found = true
+			}
+		}
+		return true
+	})
+	return found
+}
+
 // canRename: can every occurrence of `from` under n be renamed?  (not when it is used as the key of
 // a composite literal — that may be a field name — or as a label)
 func canRename(n ast.Node, from string) bool {
@@ -965,6 +1042,14 @@ func bindingsOf(fd *ast.FuncDecl, call *ast.CallExpr) (recv *binding, params []b
 	return recv, params, true
 }
 
+func isPointerType(t ast.Expr) bool {
+	if p, ok := t.(*ast.ParenExpr); ok {
+		return isPointerType(p.X)
+	}
+	_, ok := t.(*ast.StarExpr)
+	return ok
+}
+
 func bareIdent(e ast.Expr) string {
 	if id, ok := e.(*ast.Ident); ok && id.Name != "_" && id.Name != "nil" && id.Name != "true" && id.Name != "false" && id.Name != "iota" {
 		return id.Name
@@ -972,7 +1057,7 @@ func bareIdent(e ast.Expr) string {
 	return ""
 }
 
-func inlineAt(files map[string]*ast.File, d normDecl, site *callSite, types map[string]bool) string {
+func inlineAt(files map[string]*ast.File, d normDecl, site *callSite, types, refTypes map[string]bool) string {
 	fd := d.fd
 	recv, params, ok := bindingsOf(fd, site.call)
 	if !ok {
@@ -991,6 +1076,33 @@ func inlineAt(files map[string]*ast.File, d normDecl, site *callSite, types map[
 	}
 	for i := range params {
 		all = append(all, &params[i])
+	}
+	// aliasSafe: the body behaves the same on the caller's variable as on the parameter's copy of it.
+	// Reference-like types always; another package's type (taken to be an interface, or a value used
+	// read-only through its methods) unless a component is written or its address taken; a struct /
+	// array / unknown type of this package only if the body neither writes through it nor calls methods on it.
+	aliasSafe := func(b *binding) bool {
+		t := b.typ
+		for {
+			if p, ok := t.(*ast.ParenExpr); ok {
+				t = p.X
+				continue
+			}
+			break
+		}
+		if refLikeLiteral(t) {
+			return true
+		}
+		switch x := t.(type) {
+		case *ast.Ident:
+			if refTypes[x.Name] || !types[x.Name] {
+				return refTypes[x.Name] || !usesThrough(fd.Body, b.name, false) // builtin types have no components
+			}
+			return !usesThrough(fd.Body, b.name, true)
+		case *ast.SelectorExpr:
+			return !usesThrough(fd.Body, b.name, false)
+		}
+		return !usesThrough(fd.Body, b.name, true)
 	}
 	// the name the parameter b gets when it is renamed to its argument variable ("" = it keeps its name)
 	// needType: the variable takes the parameter's place without a declaration of its own in the literal / body,
@@ -1014,7 +1126,7 @@ func inlineAt(files map[string]*ast.File, d normDecl, site *callSite, types map[
 				return ""
 			}
 		}
-		if needUnassigned && writesTo(fd.Body, b.name) > 0 {
+		if needUnassigned && (writesTo(fd.Body, b.name) > 0 || !aliasSafe(b)) {
 			return ""
 		}
 		return a
@@ -1052,8 +1164,10 @@ func inlineAt(files map[string]*ast.File, d normDecl, site *callSite, types map[
 		if recv != nil {
 			a := bareIdent(recv.arg)
 			switch {
-			case a != "" && stableVar(site.outer, a) && (recv.name == "" || recv.name == "_" || renameTarget(recv, false, true) != ""):
-				// captured, like a literal written at the call site captures it
+			case a != "" && isPointerType(recv.typ) && stableVar(site.outer, a) && (recv.name == "" || recv.name == "_" || renameTarget(recv, false, true) != ""):
+				// captured, like a literal written at the call site captures it (a pointer that never changes:
+				// the literal sees the same object whenever it runs; a value receiver is a copy made at the
+				// go / defer statement and stays a parameter)
 				if recv.name != "" && recv.name != "_" && recv.name != a {
 					rens = append(rens, ren{recv.name, a})
 				}
@@ -1171,6 +1285,11 @@ func inlineAt(files map[string]*ast.File, d normDecl, site *callSite, types map[
 		for _, r := range rens {
 			renameIdent(fd.Body, r[0], r[1])
 		}
+		if collides("") {
+			// a name the body declares at its top level is also a name of the caller: keep the body's own scope
+			splice(append(pre, &ast.BlockStmt{List: fd.Body.List}))
+			return "tail call (`return f(…)`), body in place as a block (name clash)"
+		}
 		splice(append(pre, fd.Body.List...))
 		return "tail call (`return f(…)`), body in place"
 
@@ -1181,7 +1300,7 @@ func inlineAt(files map[string]*ast.File, d normDecl, site *callSite, types map[
 				trailingBare = true
 			}
 		}
-		if sh.defers == 0 && (sh.returns == 0 || trailingBare) && !sh.recovers && !sh.labels && !collides("") {
+		if sh.defers == 0 && (sh.returns == 0 || trailingBare) && !sh.recovers && !sh.labels {
 			if pre, rens, ok := prepare(); ok {
 				for _, r := range rens {
 					renameIdent(fd.Body, r[0], r[1])
@@ -1189,6 +1308,10 @@ func inlineAt(files map[string]*ast.File, d normDecl, site *callSite, types map[
 				body := fd.Body.List
 				if trailingBare {
 					body = body[:len(body)-1]
+				}
+				if collides("") {
+					splice(append(pre, &ast.BlockStmt{List: body}))
+					return "statement call, body in place as a block (name clash)"
 				}
 				splice(append(pre, body...))
 				return "statement call, body in place"
